@@ -3,7 +3,7 @@
    pair-enumeration specification that C08/C15 prove equal to the translated kernels), c09/C09_Model.v (hand model
    of the preprocessing, tied to vario_estimate by execution). *)
 From Coq Require Import Reals ZArith List Bool Arith Permutation Sorted.
-From GS Require Import Num Loops Cellwise RInst Estimator_gen C15_VarioSpec C08_Math C09_Lists C09_Removal C09_Invariance C09_Model C09_Directional.
+From GS Require Import Num Loops Cellwise RInst Estimator_gen C15_VarioSpec C08_Math C09_Lists C09_Removal C09_Invariance C09_Model C09_Directional C09_Units.
 From GS Require C12_Mat.
 Import ListNotations.
 Close Scope R_scope.
@@ -170,3 +170,21 @@ Theorem C09_directional_rotates :
     = directional (Rops ora) f edges pos dirs tol bw sep et.
 Proof. exact directional_rotates. Qed.
 Print Assumptions C09_directional_rotates.
+
+(* 9. default lat-lon bins in any length unit r > 0 (over R): standard bins scale with the unit, so the kernel receives
+      the same radian edges and the returned bin centres are the radian centres times the unit *)
+Theorem C09_default_bins_scale_with_unit :
+  forall ora r, (0 < r)%R -> forall ll, std_bins (Rops ora) true r ll = map (Rmult r) (std_bins (Rops ora) true 1%R ll).
+Proof. exact std_bins_units. Qed.
+Print Assumptions C09_default_bins_scale_with_unit.
+
+Theorem C09_default_bins_unit_free :
+  forall ora r, (0 < r)%R -> forall ll,
+    pre_edges (Rops ora) true r (std_bins (Rops ora) true r ll) = pre_edges (Rops ora) true 1%R (std_bins (Rops ora) true 1%R ll).
+Proof. exact default_bins_unit_free. Qed.
+Print Assumptions C09_default_bins_unit_free.
+
+Theorem C09_centres_scale_with_unit :
+  forall ora r e, centers (Rops ora) (map (Rmult r) e) = map (Rmult r) (centers (Rops ora) e).
+Proof. exact centers_units. Qed.
+Print Assumptions C09_centres_scale_with_unit.
